@@ -36,16 +36,16 @@ theorem first_is_min {H : Type} (tOf : H → K) (calls : List H) :
 children do (whatever the bounding-box prefilter answers), and when the prefilter admits the ray the
 callbacks are the concatenation of the children's callbacks, the count the sum of their counts and the first
 collision a minimum over the children's first collisions. -/
-theorem joined_contract {R H : Type} (tOf : H → K) (admit : R → Bool) (parts : List (Collider R H)) (r : R)
+theorem joined_contract {R H : Type} (tOf : H → K) (admits : R → Bool) (parts : List (Collider R H)) (r : R)
     (hp : ∀ c ∈ parts, Contract tOf c r) :
-    Contract tOf (joined tOf admit parts) r ∧
-    (admit r = true → ∀ cb, (joined tOf admit parts).ray r cb =
+    Contract tOf (joined tOf admits parts) r ∧
+    (admits r = true → ∀ cb, (joined tOf admits parts).ray r cb =
         ((parts.map fun c => (c.ray r cb).1).sum, parts.flatMap fun c => (c.ray r cb).2)) ∧
-    (admit r = true → ∀ h, (joined tOf admit parts).first r = some h →
+    (admits r = true → ∀ h, (joined tOf admits parts).first r = some h →
         (∃ c ∈ parts, c.first r = some h) ∧ ∀ c ∈ parts, ∀ h', c.first r = some h' → tOf h ≤ tOf h') :=
-  ⟨joined_contract' tOf admit parts r hp,
-   fun ha cb => joinedRay_eq admit parts r cb ha,
-   fun ha => (joinedFirst_spec tOf admit parts r ha).2⟩
+  ⟨joined_contract' tOf admits parts r hp,
+   fun ha cb => joinedRay_eq admits parts r cb ha,
+   fun ha => (joinedFirst_spec tOf admits parts r ha).2⟩
 
 /-- **`profile_contract`**: `profileCollider` (vertical-ray, flat-ray and general case with the two face
 tests and the side filter) satisfies the contract whenever the 2-D collider's callbacks for the projected
